@@ -12,15 +12,19 @@ CHECK_MODS = ['Model.Core', 'Model.Rel', 'Model.Revert', 'Checks.Corechk', 'Chec
 CASE_TYPE = 'C05_case'
 CORR, PROPCHK = 'C05_corr', 'C05_prop'
 THEOREMS = ['C05_columns_restored', 'C05_delete_version_leaves_entity_absent', 'C05_unnamed_relationships_untouched',
-            'C05_links_reset', 'C05_children_added_since_go_away', 'C05_example']
+            'C05_links_reset', 'C05_children_added_since_go_away', 'C05_first_level_spec', 'C05_subpaths_spec',
+            'C05_reach_example', 'C05_example']
 RULE = ('histories over the blog shape (articles with tags and labels created, re-pointed, unlinked, deleted and re-created) are '
         'run; then a version of an Article or Tag is chosen (first / middle / last / delete versions; entity currently live or '
-        'deleted) together with a subset of its relationships (tags, labels / article), version.revert(relations) is called and '
+        'deleted) together with a subset of its relationships (tags, labels / article) and dotted paths of two and three segments '
+        '(tags.article, labels.articles, labels.articles.tags, labels.articles.labels, tags.article.labels, article.tags, '
+        'article.labels.articles, ... with or without their prefixes), version.revert(relations) is called and '
         'committed. Compared: live tables after the commit with the model and with the property clauses (columns restored, '
         'excluded column untouched, children / links reset to what the version shows, unnamed relationships untouched, delete '
         'version leaves the entity absent); the revert transaction itself is replayed in the Layer-B model (C01). Non-trivial: '
         'the target is not the newest version of its entity, or a relationship is named.')
-ASSUMPTIONS = B.COMMON_ASSUMPTIONS + ['one level of relationships; dotted paths are not generated']
+ASSUMPTIONS = B.COMMON_ASSUMPTIONS + ['functional model for one level of relationships; below it the versions reached (Model/Revert.v reach) '
+                                      'are judged entity by entity when no entity is reached twice']
 
 
 def budget(tier):
@@ -54,7 +58,7 @@ def gen_history(rng):
             if k not in labs:
                 prog.append(['add', 2, k, {'a': rng.choice([0, 1])}])
                 labs.add(k)
-        elif r < 0.72 and arts and labs:
+        elif r < 0.74 and arts and labs:
             a, l = rng.choice(sorted(arts)), rng.choice(sorted(labs))
             if (a, l) in links:
                 prog.append(['unlink', a, l])
@@ -77,10 +81,56 @@ def gen_history(rng):
     return prog
 
 
+def gen_deep(rng):
+    """A history made for dotted paths of three segments: two articles sharing ONE label (so that the other article is
+    reached once), tags below them; then everything changes (values, a tag added, a tag removed or moved, optionally a
+    link removed); the target is an early version of article `root` or of a tag."""
+    root = rng.choice([1, 2])
+    other = 3 - root
+    prog = [['add', 0, 1, {'a': 1, 'b': rng.choice([0, 1])}], ['add', 0, 2, {'a': 1}], ['add', 2, 1, {'a': 1}]]
+    prog += [['link', 1, 1], ['link', 2, 1]]
+    if rng.random() < 0.4:
+        prog += [['add', 2, 2, {'a': 0}], ['link', root, 2]]          # a second label on the root only
+    ntags = rng.choice([1, 2])
+    for t in range(1, ntags + 1):
+        prog += [['add', 1, t, {'a': t}], ['tagto', t, other if rng.random() < 0.8 else root]]
+    prog.append(['commit'])
+    for _ in range(rng.randint(1, 2)):
+        prog += [['set', 0, other, {'a': rng.choice([2, 3])}], ['set', 2, 1, {'a': rng.choice([2, 3])}]]
+        if rng.random() < 0.7:
+            prog.append(['set', 1, 1, {'a': rng.choice([5, 6])}])
+        if rng.random() < 0.5:
+            prog += [['add', 1, 3, {'a': 0}], ['tagto', 3, other]]
+        if rng.random() < 0.4:
+            prog.append(rng.choice([['del', 1, ntags], ['tagto', ntags, None], ['tagto', ntags, root]]))
+        if rng.random() < 0.3:
+            prog.append(['unlink', other, 1])
+        if rng.random() < 0.5:
+            prog.append(['set', 0, root, {'a': 9}])
+        prog.append(['commit'])
+    if rng.random() < 0.7:
+        rels = [rng.choice(['labels.articles.tags', 'labels.articles.tags', 'labels.articles.labels', 'labels.articles'])]
+        if rng.random() < 0.5:
+            rels = ['labels', 'labels.articles'] + rels
+        return prog, [0, root, 'first', rels]
+    rels = [rng.choice(['article.labels.articles', 'article.labels', 'article.tags'])]
+    if rng.random() < 0.5:
+        rels = ['article'] + rels
+    return prog, [1, 1, 'first', rels]
+
+
 def gen_cases(rng, n, tier):
     cfgs = [dict(shape='blog', strategy=s, twin=False, tracker=t) for s in ('validity', 'subquery') for t in (False, True)]
-    return [dict(cfg=cfgs[i % len(cfgs)], prog=gen_history(rng), pick=rng.random(), pick2=rng.random(),
-                 again=(i % 4 == 3)) for i in range(n)]
+    out = []
+    for i in range(n):
+        if i % 5 == 4:
+            prog, tgt = gen_deep(rng)
+            out.append(dict(cfg=cfgs[(i // 5) % len(cfgs)], prog=prog, fixed_target=tgt, pick=rng.random(), pick2=rng.random(),
+                            again=False))
+        else:
+            out.append(dict(cfg=cfgs[i % len(cfgs)], prog=gen_history(rng), pick=rng.random(), pick2=rng.random(),
+                            again=(i % 4 == 3)))
+    return out
 
 
 def corpus():
@@ -93,6 +143,17 @@ def corpus():
             dict(cfg=cfg, prog=[['add', 0, 1, {'a': 1}], ['add', 2, 1, {'a': 1}], ['link', 1, 1], ['commit'],
                                 ['set', 0, 1, {'a': 2}], ['commit']],
                  fixed_target=[0, 1, 'first', ['labels', 'labels.articles']]),
+            # three segments: article 2 is reached through the shared label, its tags below it; everything changed since
+            dict(cfg=cfg, prog=[['add', 0, 1, {'a': 1}], ['add', 0, 2, {'a': 1}], ['add', 2, 1, {'a': 1}], ['add', 1, 1, {'a': 1}],
+                                ['link', 1, 1], ['link', 2, 1], ['tagto', 1, 2], ['commit'],
+                                ['set', 1, 1, {'a': 2}], ['set', 0, 2, {'a': 2}], ['set', 2, 1, {'a': 2}], ['set', 0, 1, {'a': 2}],
+                                ['add', 1, 2, {'a': 0}], ['tagto', 2, 2], ['commit']],
+                 fixed_target=[0, 1, 'first', ['labels.articles.tags']]),
+            dict(cfg=cfg, prog=[['add', 0, 1, {'a': 1}], ['add', 0, 2, {'a': 1}], ['add', 2, 1, {'a': 1}], ['add', 1, 1, {'a': 1}],
+                                ['link', 1, 1], ['link', 2, 1], ['tagto', 1, 2], ['commit'],
+                                ['set', 1, 1, {'a': 2}], ['set', 0, 2, {'a': 2}], ['set', 2, 1, {'a': 2}], ['commit'],
+                                ['del', 1, 1], ['commit']],
+                 fixed_target=[1, 1, 'first', ['article', 'article.labels', 'article.labels.articles']]),
             dict(cfg=cfg, prog=base + [['set', 0, 1, {'a': 2}], ['commit']], fixed_target=[0, 1, 'first', []], again=True),
             dict(cfg=cfg, prog=base + [['del', 0, 1], ['commit']], fixed_target=[0, 1, 'del', []]),
             dict(cfg=cfg, prog=base, fixed_target=[1, 1, 'first', ['article']]),
@@ -137,10 +198,26 @@ def choose_target(case, snap):
             rels.append('tags.article')
         if 'labels' in rels and rng.random() < 0.3:
             rels.append('labels.articles')
+        # three segments: other articles reached through a shared label, and their tags / labels; the prefixes are
+        # named too or left implicit (Reverter takes the first segment of every path)
+        if rng.random() < 0.3:
+            deep = rng.choice(['labels.articles.tags', 'labels.articles.tags', 'labels.articles.labels', 'tags.article.labels'])
+            if rng.random() < 0.5:
+                parts = deep.split('.')
+                for i in (1, 2):
+                    pre = '.'.join(parts[:i])
+                    if pre not in rels:
+                        rels.append(pre)
+            rels.append(deep)
     else:
         rels = ['article'] if rng.random() < 0.5 else []
         if rels and rng.random() < 0.3:
             rels.append('article.tags')
+        if rng.random() < 0.25:
+            deep = rng.choice(['article.labels.articles', 'article.tags', 'article.labels', 'article.tags.article'])
+            if rng.random() < 0.5 and 'article' not in rels:
+                rels.append('article')
+            rels.append(deep)
     return [r['tab'], r['key'][0], r['tx'], rels]
 
 
@@ -213,6 +290,7 @@ def g_vt(sn, tab):
                                                                   glist([hist.coerce_val(v) for v in r['dat']], gopt)))
 
 
+RELCODE = {'tags': 0, 'labels': 1, 'article': 2, 'articles': 3}
 EMPTY_MAIN = '(mkcase (mkcfg true false false false false []) [] [] true 0 false None)'
 EMPTY_RL = '(mkrl [] [] [] [])'
 
@@ -221,22 +299,24 @@ def encode(case, obs):
     if obs.get('skipped'):
         # nothing to revert: a vacuous but well-formed case (target missing => corr/prop false is avoided by PRE)
         return ('{| c5_main := %s; c5_art := []; c5_tag := []; c5_lab := []; c5_av := []; c5_before := %s; c5_tab := 9%%nat; '
-                'c5_key := 0; c5_tx := 0; c5_tags := false; c5_labels := false; c5_article := false; c5_deep := false; c5_after := %s; '
+                'c5_key := 0; c5_tx := 0; c5_tags := false; c5_labels := false; c5_article := false; c5_paths := []; c5_deep := false; c5_after := %s; '
                 'c5_exc := false |}') % (EMPTY_MAIN, EMPTY_RL, EMPTY_RL)
     if obs.get('exc') or obs.get('before') is None:
         return ('{| c5_main := %s; c5_art := []; c5_tag := []; c5_lab := []; c5_av := []; c5_before := %s; c5_tab := 0%%nat; '
-                'c5_key := 0; c5_tx := 0; c5_tags := false; c5_labels := false; c5_article := false; c5_deep := false; c5_after := %s; '
+                'c5_key := 0; c5_tx := 0; c5_tags := false; c5_labels := false; c5_article := false; c5_paths := []; c5_deep := false; c5_after := %s; '
                 'c5_exc := true |}') % (EMPTY_MAIN, EMPTY_RL, EMPTY_RL)
     r = obs['run']
     tgt = obs['target']
     before, after = obs['before'], r['snaps'][-1]
     failed = any(o.startswith('error') for o in r['outcomes'][len(case['prog']):])
+    firsts = [x.split('.')[0] for x in tgt[3]]      # Reverter restores the first segment of every named path
     av = glist(before['av'], lambda a: '(mklnk %s %s %s %s)' % (gZ(a['key'][0]), gZ(a['key'][1]), gZ(a['tx']), gZ(a['op'])))
     return ('{| c5_main := %s; c5_art := %s; c5_tag := %s; c5_lab := %s; c5_av := %s; c5_before := %s; c5_tab := %s; '
-            'c5_key := %s; c5_tx := %s; c5_tags := %s; c5_labels := %s; c5_article := %s; c5_deep := %s; c5_after := %s; '
+            'c5_key := %s; c5_tx := %s; c5_tags := %s; c5_labels := %s; c5_article := %s; c5_paths := %s; c5_deep := %s; c5_after := %s; '
             'c5_exc := %s |}') % (
         hist.encode_case(case, r), g_vt(before, 0), g_vt(before, 1), g_vt(before, 2), av, g_rlive(before),
-        gnat(tgt[0]), gZ(tgt[1]), gZ(tgt[2]), gbool('tags' in tgt[3]), gbool('labels' in tgt[3]), gbool('article' in tgt[3]),
+        gnat(tgt[0]), gZ(tgt[1]), gZ(tgt[2]), gbool('tags' in firsts), gbool('labels' in firsts), gbool('article' in firsts),
+        glist(tgt[3], lambda p: glist([RELCODE[x] for x in p.split('.')])),
         gbool(any('.' in x for x in tgt[3])), g_rlive(after), gbool(failed))
 
 
